@@ -5,7 +5,7 @@
 From Coq Require Import ZArith List Bool String.
 From Coq Require Extraction.
 From Coq Require Import ExtrOcamlBasic ExtrOcamlString.
-From HV Require Import Model.ByteVecModel Model.ByteVecHeapModel Model.MemOpsModel.
+From HV Require Import Spec.ByteVecSpec Model.ByteVecModel Model.ByteVecHeapModel Model.MemOpsModel.
 Import ListNotations.
 Open Scope Z_scope.
 
@@ -18,7 +18,8 @@ Inductive cmd : Type :=
 | CGet (r off : nat)          (* objects[r].get_byte(off) *)
 | CUnwrap (r : nat)           (* objects[r].unwrap() *)
 | CWord (r off : nat)         (* objects[r].slice(off, off + 32).unwrap() *)
-| CSetItem (r : nat) (start stop : option nat) (v : hval Z).   (* objects[r][start:stop] = v *)
+| CSetItem (r : nat) (start stop : option nat) (v : hval Z)    (* objects[r][start:stop] = v *)
+| CObs (r : nat) (q : obs).   (* len(objects[r]) / objects[r].slice(a, b).unwrap() / objects[r][start:stop].unwrap() *)
 
 (* value encodings:  0 sym n d1..dn start len | 1 r a b | 2 r *)
 Definition dec_val (l : list Z) : option (hval Z * list Z) :=
@@ -49,7 +50,8 @@ Definition dec_val (l : list Z) : option (hval Z * list Z) :=
 
 (* command encodings:
    0 | 1 r | 2 r a b | 3 r <val> | 4 r off sym x | 5 r a b <val> | 6 r off <val>
-   7 r off | 8 r | 9 r off | 10 r has_start start has_stop stop <val> *)
+   7 r off | 8 r | 9 r off | 10 r has_start start has_stop stop <val>
+   11 r | 12 r a b | 13 r has_start start has_stop stop        (observations: len, slice, v[start:stop]) *)
 Fixpoint dec_cmds (fuel : nat) (l : list Z) : list cmd :=
   match fuel with
   | O => []
@@ -104,6 +106,17 @@ Fixpoint dec_cmds (fuel : nat) (l : list Z) : list cmd :=
             match r with o :: r1 => CUnwrap (zn o) :: dec_cmds f r1 | _ => [] end
           else if t =? 9 then
             match r with o :: off :: r1 => CWord (zn o) (zn off) :: dec_cmds f r1 | _ => [] end
+          else if t =? 11 then
+            match r with o :: r1 => CObs (zn o) OLen :: dec_cmds f r1 | _ => [] end
+          else if t =? 12 then
+            match r with o :: a :: b :: r1 => CObs (zn o) (OSliceQ (zn a) (zn b)) :: dec_cmds f r1 | _ => [] end
+          else if t =? 13 then
+            match r with
+            | o :: hs :: a :: he :: b :: r1 =>
+                CObs (zn o) (OItem (if hs =? 1 then Some (zn a) else None) (if he =? 1 then Some (zn b) else None))
+                  :: dec_cmds f r1
+            | _ => []
+            end
           else if t =? 10 then
             match r with
             | o :: hs :: a :: he :: b :: r1 =>
@@ -191,6 +204,12 @@ Fixpoint exec (h : heap Z) (cs : list cmd) : list Z :=
       | CWord o off =>
           match h_load Z FUEL h o with
           | Some t => framed (out_seg (get_word Z 0 t off)) ++ exec h r
+          | None => [1; -1]
+          end
+      | CObs o q =>
+          match h_load Z FUEL h o with
+          | Some t =>
+              framed (match observe Z 0 t q with FRLen n => [nz n] | FRBytes l => l end) ++ exec h r
           | None => [1; -1]
           end
       end
